@@ -4,6 +4,7 @@ set -u
 cd "$(dirname "$0")"
 export GOFLAGS=-mod=mod GOPROXY=off GOSUMDB=off GOTOOLCHAIN=local
 mkdir -p evidence replays .work
+./harness/derive.sh
 (cd harness && go build -tags verif ./... ) || { echo "setup: harness does not build"; exit 1; }
 (cd harness && for d in props/*/; do if [ -f "$d/RACE" ]; then go build -race -tags verif -trimpath -o /dev/null "./$d" || exit 1; fi; done) || exit 1
 echo "setup ok"
